@@ -49,6 +49,7 @@ THEOREMS = [
     "Typedpy.C03.runB_hook_partial",
     "Typedpy.C03.refCall_facts",
     "Typedpy.C03.delitem_skips_hook",
+    "Typedpy.C03.nested_depth2_example",
 ]
 RULE = ("mutable (and field-immutable) classes biased to Array/Deque/Map fields incl. nested typed wrappers; start "
         "instance valid; histories of <=6 (quick) / <=20 (thorough) ops drawn from setattr(valid|invalid|None), del, "
